@@ -104,6 +104,24 @@ def hostile_pair(rng):
     """a funding/spending pair with one structural lie: out-of-range prevout index, weird witness shapes, ..."""
     sc = tx_pair(rng)
     tx, fund, idx = sc['tx'], sc['fund'], sc['idx']
+    if rng.random() < 0.12:
+        # SIGHASH_SINGLE with the input index at / beyond the number of outputs (legacy: the "one" digest; the outputs must not be read)
+        for _ in range(20):
+            sc = c03.build(rng, rng.choice(['p2pkh', 'p2pk', 'p2wpkh']), 'valid')
+            if sc['idx'] >= 1:
+                break
+        tx, fund, idx = sc['tx'], sc['fund'], sc['idx']
+        if idx >= 1:
+            tx.vout = (list(tx.vout) * 5)[:rng.choice([idx, idx, idx - 1, idx + 1])]
+            ht = rng.choice([3, 3, 0x83])
+            if tx.wit and tx.wit[idx]:
+                w = list(tx.wit[idx]); w[0] = w[0][:-1] + bytes([ht]); tx.wit[idx] = w
+            else:
+                ops = decode_all(tx.vin[idx][2]) or []
+                if ops and ops[0][1]:
+                    sig = ops[0][1][:-1] + bytes([ht])
+                    tx.vin[idx][2] = push_only(sig) + b''.join(push_only(d) for o, d in ops[1:] if d is not None)
+            return 'sighash-single-at-output-count', rtx.ser_tx(tx).hex(), rtx.ser_tx(fund).hex()
     k = rng.choice(['vout-out-of-range', 'vout-huge', 'empty-witness-items', 'control-sizes', 'only-annex', 'witness-on-legacy', 'no-outputs-in-funding', 'many-witness-items', 'big-witness-item', 'as-is', 'swap', 'same'])
     if k == 'vout-out-of-range':
         tx.vin[idx][1] = len(fund.vout) + rng.choice([0, 1, 5])
